@@ -44,7 +44,7 @@ var binSym = map[string]string{
 func IsBinary(op string) bool { _, ok := binSym[op]; return ok }
 
 func (e *E) atom() bool {
-	return len(e.A) == 0 || e.Op == "collect" || e.Op == "objk" || e.Op == "obje" || isFunc(e.Op)
+	return len(e.A) == 0 || e.Op == "keyof" || e.Op == "collect" || e.Op == "objk" || e.Op == "obje" || isFunc(e.Op)
 }
 
 func isFunc(op string) bool {
@@ -79,6 +79,8 @@ func (e *E) String() string {
 		return ".."
 	case "rdesc3":
 		return "..."
+	case "keyof":
+		return "(" + e.A[0].String() + " | key)"
 	case "slice":
 		return ".[" + e.S + "]"
 	case "lit":
